@@ -8,16 +8,18 @@ def SelfSt (st : TpSt) : Prop := st = .notAdded ∨ st = .adding ∨ st = .added
 
 def SelfRel (ts ts' : Tp) : Prop :=
   ts'.total = 0 ∧ ts'.early = false ∧ ts'.pend = ts.pend ∧ ts'.cbAt = ts.cbAt ∧ ts'.cbs = ts.cbs ∧ SelfSt ts'.st ∧
+  (ts'.addAt = ts.addAt ∨ (ts.st = .adding ∧ ts'.st = .added)) ∧
   ((ts'.st = ts.st ∧ (ts'.ready = ts.ready ∨ ts'.ready = true)) ∨ (ts.st = .notAdded ∧ ts'.st = .adding) ∨
    (ts.st = .adding ∧ ts'.st = .added) ∨ (ts.st = .inCbN ∧ ts'.st = .done))
 
 theorem selfRel_refl {ts : Tp} (h0 : ts.total = 0) (he : ts.early = false) (hst : SelfSt ts.st) : SelfRel ts ts :=
-  ⟨h0, he, rfl, rfl, rfl, hst, Or.inl ⟨rfl, Or.inl rfl⟩⟩
+  ⟨h0, he, rfl, rfl, rfl, hst, Or.inl rfl, Or.inl ⟨rfl, Or.inl rfl⟩⟩
 
 theorem step?_self {s s' : St} {tr : Tr} {q : Nat} {ts : Tp} (hI : Inv s) (hs : step? s tr = some s')
     (hts : s.tps[q]? = some ts) (h0 : ts.total = 0) (he : ts.early = false) (hst : SelfSt ts.st)
-    (hd : ∀ t, tr ≠ .detect t q) (hi : ∀ t, tr ≠ .insert t q) (hr : ∀ t n, tr ≠ .startupReady t n)
-    (ha : ∀ t p, tr ≠ .actionDone t p) (hsa : ∀ t p, tr ≠ .startupAdd t p) :
+    (hd : ∀ t, tr ≠ .detect t q) (hi : ∀ t, tr ≠ .insert t q)
+    (hr : ∀ t n, tr = .startupReady t n → s.subs[t]? ≠ some (.startup q))
+    (ha : ∀ t, tr ≠ .actionDone t q) :
     ∃ ts' : Tp, s'.tps[q]? = some ts' ∧ SelfRel ts ts' := by
   have hrefl := selfRel_refl h0 he hst
   have other : ∀ (p : Nat) (x : Tp), p ≠ q → ∃ ts' : Tp, (s.tps.set p x)[q]? = some ts' ∧ SelfRel ts ts' := by
@@ -76,7 +78,10 @@ theorem step?_self {s s' : St} {tr : Tr} {q : Nat} {ts : Tp} (hI : Inv s) (hs : 
   | dec t =>
     simp only [step?] at hs; split at hs
     · split at hs
-      · rename_i p hbt _ _ tp htp; cases hs
+      · rename_i p hbt _ _ tp htp
+        split at hs
+        case isFalse => cases hs
+        cases hs
         by_cases hpq : p = q
         · subst hpq; rw [hts] at htp; cases htp
           obtain ⟨x, hx, hxs, _⟩ := hI.cbFwd t p hbt
@@ -91,11 +96,20 @@ theorem step?_self {s s' : St} {tr : Tr} {q : Nat} {ts : Tp} (hI : Inv s) (hs : 
       · rename_i tp htp hg; cases hs
         by_cases hpq : p = q
         · subst hpq; rw [hts] at htp; cases htp
-          exact ⟨_, List.getElem?_set_self hql, h0, he, rfl, rfl, rfl, Or.inr (Or.inl rfl), Or.inr (Or.inl ⟨hg.2, rfl⟩)⟩
+          exact ⟨_, List.getElem?_set_self hql, h0, he, rfl, rfl, rfl, Or.inr (Or.inl rfl), Or.inl rfl, Or.inr (Or.inl ⟨hg.2, rfl⟩)⟩
         · exact other p _ hpq
       · cases hs
     · cases hs
-  | startupAdd t p => exact absurd rfl (hsa t p)
+  | startupAdd t p =>
+    simp only [step?] at hs; split at hs
+    · split at hs
+      · rename_i _ _ _ tp _ htp hg; cases hs
+        by_cases hpq : p = q
+        · subst hpq; rw [hts] at htp; cases htp
+          exact ⟨_, List.getElem?_set_self hql, h0, he, rfl, rfl, rfl, Or.inr (Or.inl rfl), Or.inl rfl, Or.inr (Or.inl ⟨hg, rfl⟩)⟩
+        · exact other p _ hpq
+      · cases hs
+    · cases hs
   | earlyCb t =>
     simp only [step?] at hs; split at hs
     · split at hs
@@ -126,7 +140,7 @@ theorem step?_self {s s' : St} {tr : Tr} {q : Nat} {ts : Tp} (hI : Inv s) (hs : 
         · rename_i p _ _ tp htp hg; cases hs
           by_cases hpq : p = q
           · subst hpq; rw [hts] at htp; cases htp
-            exact ⟨_, List.getElem?_set_self hql, h0, he, rfl, rfl, rfl, Or.inr (Or.inr (Or.inl rfl)), Or.inr (Or.inr (Or.inl ⟨hg.1, rfl⟩))⟩
+            exact ⟨_, List.getElem?_set_self hql, h0, he, rfl, rfl, rfl, Or.inr (Or.inr (Or.inl rfl)), Or.inr ⟨hg.1, rfl⟩, Or.inr (Or.inr (Or.inl ⟨hg.1, rfl⟩))⟩
           · exact other p _ hpq
         · split at hs
           · rename_i p _ _ tp htp _ hg; cases hs
@@ -143,7 +157,7 @@ theorem step?_self {s s' : St} {tr : Tr} {q : Nat} {ts : Tp} (hI : Inv s) (hs : 
       · rename_i tp htp hg; cases hs
         by_cases hpq : p = q
         · subst hpq; rw [hts] at htp; cases htp
-          exact ⟨_, List.getElem?_set_self hql, h0, he, rfl, rfl, rfl, hst, Or.inl ⟨rfl, Or.inr rfl⟩⟩
+          exact ⟨_, List.getElem?_set_self hql, h0, he, rfl, rfl, rfl, hst, Or.inl rfl, Or.inl ⟨rfl, Or.inr rfl⟩⟩
         · exact other p _ hpq
       · cases hs
     · cases hs
@@ -156,17 +170,36 @@ theorem step?_self {s s' : St} {tr : Tr} {q : Nat} {ts : Tp} (hI : Inv s) (hs : 
         · exact other p _ hpq
       · cases hs
     · cases hs
-  | startupReady t n => exact absurd rfl (hr t n)
-  | actionDone t p => exact absurd rfl (ha t p)
+  | startupReady t n =>
+    simp only [step?] at hs; split at hs
+    · split at hs
+      · split at hs
+        · rename_i p hsu _ tp htp hg; cases hs
+          by_cases hpq : p = q
+          · subst hpq; exact absurd hsu (hr t n rfl)
+          · exact other p _ hpq
+        · cases hs
+      · cases hs
+    · cases hs
+  | actionDone t p =>
+    by_cases hpq : p = q
+    · subst hpq; exact absurd rfl (ha t)
+    · simp only [step?] at hs; split at hs
+      · split at hs
+        · split at hs
+          · cases hs; exact other p _ hpq
+          · cases hs; exact other p _ hpq
+        · cases hs
+      · cases hs
   | nestDec t =>
     simp only [step?] at hs; split at hs
     · split at hs
-      · rename_i p hsu _ tp htp; cases hs
+      · rename_i p rest _ hsu _ tp htp; cases hs
         by_cases hpq : p = q
         · subst hpq; rw [hts] at htp; cases htp
-          obtain ⟨x, hx, hxs, _⟩ := hI.nFwd t p hsu
+          obtain ⟨x, hx, hxs, _⟩ := hI.nFwd t _ p hsu List.mem_cons_self
           rw [hts] at hx; cases hx
-          exact ⟨_, List.getElem?_set_self hql, h0, he, rfl, rfl, rfl, Or.inr (Or.inr (Or.inr (Or.inr rfl))), Or.inr (Or.inr (Or.inr ⟨hxs, rfl⟩))⟩
+          exact ⟨_, List.getElem?_set_self hql, h0, he, rfl, rfl, rfl, Or.inr (Or.inr (Or.inr (Or.inr rfl))), Or.inl rfl, Or.inr (Or.inr (Or.inr ⟨hxs, rfl⟩))⟩
         · exact other p _ hpq
       · cases hs
     · cases hs
